@@ -48,6 +48,16 @@ SExit(k) ==
   /\ inS' = FALSE /\ fresh' = FALSE
   /\ UNCHANGED <<total, inR, snap, snapM, returned>>
 
+\* a run of samples with no render in between, observed as a whole: d = key -> number of completed
+\* samples (the same as Len-many SEnter/SExit pairs; used by traces of runs with very many matches)
+SBulk(d) ==
+  /\ ~inS /\ ~inR /\ ~returned
+  /\ DOMAIN d \subseteq DOMAIN total
+  /\ \A k \in DOMAIN d : d[k] >= 1 /\ cnt[k] + d[k] <= total[k]
+  /\ cnt' = [k \in DOMAIN total |-> IF k \in DOMAIN d THEN cnt[k] + d[k] ELSE cnt[k]]
+  /\ fresh' = FALSE
+  /\ UNCHANGED <<total, inS, inR, snap, snapM, returned>>
+
 \* the output function starts: it shows s and the matched total m
 REnter(s, m) ==
   /\ ~inS /\ ~inR /\ ~returned
